@@ -43,23 +43,54 @@ def seekK (c : Col.{u}) (s1 : c.m.σ) : ROut → Col.{u} × ROut
 def seek (c : Col.{u}) (k : Nat) : Col.{u} × ROut :=
   seekK c (c.m.step c.s (.seek k)).1 (c.m.step c.s (.seek k)).2
 
-theorem seek_spec (c : Col.{u}) (k : Nat) (h : c.Inv) (hk : k ≤ c.m.total) :
+theorem seek_m (c : Col.{u}) (k : Nat) : (c.seek k).1.m = c.m := by
+  unfold seek seekK
+  split <;> rfl
+
+/-- a seek to a row of the column (the end included) is never refused -/
+theorem seek_ok_of_le (c : Col.{u}) (k : Nat) (h : c.Inv) (hk : k ≤ c.m.total) :
+    (c.m.step c.s (.seek k)).2 = .ok := by
+  rcases c.m.step_spec c.s (.seek k) h.1 with ⟨ho, _⟩ | ⟨_, _, hbad⟩
+  · exact ho
+  · omega
+
+theorem seek_spec (c : Col.{u}) (k : Nat) (h : c.Inv) (hok : (c.m.step c.s (.seek k)).2 = .ok) :
     (c.seek k).2 = .ok ∧ (c.seek k).1.m = c.m ∧ (c.seek k).1.Inv ∧ (c.seek k).1.npos = some (min k c.m.total) := by
   have hspec := c.m.step_spec c.s (.seek k) h.1
   have hinv := c.m.step_inv c.s (.seek k) h.1
   unfold seek
-  generalize c.m.step c.s (.seek k) = x at hspec hinv
+  generalize c.m.step c.s (.seek k) = x at hspec hinv hok
   obtain ⟨s1, o⟩ := x
-  rcases hspec with ⟨ho, k', hp, hsame⟩ | ⟨_, _, hbad⟩
-  · simp only [] at ho hp hinv
-    subst ho
+  simp only [] at hok
+  subst hok
+  rcases hspec with ⟨_, k', hp, hsame⟩ | ⟨hbad, _, _⟩
+  · simp only [] at hp hinv
     simp only [seekK]
     refine ⟨trivial, trivial, ⟨hinv, Or.inl rfl⟩, ?_⟩
     simp only [npos, hp, Option.map_some, Nat.sub_zero]
     rcases hsame with rfl | ⟨a, b⟩
     · rfl
     · congr 1; omega
-  · omega
+  · cases hbad
+
+/-- a refused seek leaves the column where it was (the held page is kept) -/
+theorem seek_refused (c : Col.{u}) (k : Nat) (h : c.Inv) (herr : (c.m.step c.s (.seek k)).2 = .err) :
+    (c.seek k).2 = .err ∧ (c.seek k).1.m = c.m ∧ (c.seek k).1.Inv ∧ (c.seek k).1.npos = c.npos := by
+  have hspec := c.m.step_spec c.s (.seek k) h.1
+  have hinv := c.m.step_inv c.s (.seek k) h.1
+  obtain ⟨hI, hbuf⟩ := h
+  unfold seek
+  generalize c.m.step c.s (.seek k) = x at hspec hinv herr
+  obtain ⟨s1, o⟩ := x
+  simp only [] at herr
+  subst herr
+  rcases hspec with ⟨hbad, _⟩ | ⟨_, hp, _⟩
+  · cases hbad
+  · simp only [] at hp hinv
+    simp only [seekK]
+    refine ⟨trivial, trivial, ⟨hinv, ?_⟩, ?_⟩
+    · simpa only [hp] using hbuf
+    · simp only [npos, hp]
 
 end Col
 
@@ -174,6 +205,23 @@ theorem colRead_spec : ∀ (fuel : Nat) (c : Col.{u}) (want got q : Nat), c.Inv 
           simp only [] at b1 b2
           refine ⟨by rw [b1]; omega, by rw [b2]; congr 1; omega⟩
 
+theorem colRead_m : ∀ (fuel : Nat) (c : Col.{u}) (want got : Nat), (colRead fuel c want got).1.m = c.m
+  | 0, _, _, _ => rfl
+  | fuel + 1, c, want, got => by
+    simp only [colRead]
+    split
+    · rfl
+    · split
+      · generalize c.m.step c.s .readPage = x
+        obtain ⟨s1, o⟩ := x
+        cases o with
+        | rows st n => simp only [pageK]; exact colRead_m fuel _ want got
+        | ok => rfl
+        | err => rfl
+        | eof => rfl
+        | fail => rfl
+      · exact colRead_m fuel _ _ _
+
 /-! ### the row reader -/
 
 structure RSt where
@@ -233,10 +281,12 @@ def rstep (s : RSt.{u}) : ROp → RSt.{u} × ROut
     else rreadK s n
   | .reset => ({ rowIndex := 0, cols := resetAll s.cols, err := false }, .ok)
 
-/-- SPEC: the reference row reader over `T` rows -/
+/-- SPEC: the reference row reader over `T` rows. Its position is the row index of the last
+    accepted seek plus the rows delivered since; beyond the last row (`p > T`) reads deliver
+    nothing. A seek may be refused only beyond the last row, and then nothing changes. -/
 def RSpec (T : Nat) (n : Option Nat) (op : ROp) (n' : Option Nat) (out : ROut) : Prop :=
   match op with
-  | .seek k => out = .ok ∧ n' = some k
+  | .seek k => (out = .ok ∧ n' = some k) ∨ (out = .err ∧ n' = n ∧ T < k)
   | .reset => out = .ok ∧ n' = some 0
   | .read b =>
     match n with
@@ -249,25 +299,77 @@ def rpos (s : RSt.{u}) : Option Nat :=
 def ColsAt (T : Nat) (cs : List Col.{u}) (q : Nat) : Prop :=
   ∀ c ∈ cs, c.m.total = T ∧ c.Inv ∧ c.npos = some q
 
-def RInv (T : Nat) (s : RSt.{u}) : Prop :=
-  s.cols ≠ [] ∧ (∀ c ∈ s.cols, c.m.total = T ∧ c.Inv) ∧
-  (s.err = false → ∃ p, p ≤ T ∧ ((s.rowIndex < 0 ∧ p = 0) ∨ s.rowIndex = (p : Int)) ∧ ColsAt T s.cols p)
+/-- how the page readers of one row reader answer a seek beyond the last row: all alike
+    (`true`: they accept it, `false`: they refuse it) -/
+def Mode : Bool → Machine.{u} → Prop
+  | true, m => m.Lenient
+  | false, m => m.Strict
 
-theorem seekAll_spec (T k : Nat) (hk : k ≤ T) : ∀ (cs : List Col.{u}), (∀ c ∈ cs, c.m.total = T ∧ c.Inv) →
-    (seekAll cs k).2 = true ∧ ((seekAll cs k).1 = [] ↔ cs = []) ∧ ColsAt T (seekAll cs k).1 k
-  | [], _ => ⟨rfl, by simp [seekAll], by intro c hc; simp [seekAll] at hc⟩
-  | c :: cs, h => by
+def RInv (T : Nat) (L : Bool) (s : RSt.{u}) : Prop :=
+  s.cols ≠ [] ∧ (∀ c ∈ s.cols, c.m.total = T ∧ c.Inv) ∧ (∀ m ∈ s.cols.map (·.m), Mode L m) ∧
+  (s.err = false → ∃ p, (L = false → p ≤ T) ∧ ((s.rowIndex < 0 ∧ p = 0) ∨ s.rowIndex = (p : Int)) ∧
+    ColsAt T s.cols (min p T))
+
+theorem seekAll_m : ∀ (cs : List Col.{u}) (k : Nat), (seekAll cs k).1.map (·.m) = cs.map (·.m)
+  | [], _ => rfl
+  | c :: cs, k => by
+    simp only [seekAll]
+    split
+    · simp only [List.map_cons, Col.seek_m, seekAll_m cs k]
+    · simp only [List.map_cons, Col.seek_m]
+
+theorem readAll_m (n : Nat) : ∀ (cs : List Col.{u}), (readAll n cs).1.map (·.m) = cs.map (·.m)
+  | [] => rfl
+  | c :: cs => by
+    simp only [readAll]
+    split
+    · simp only [List.map_cons, colRead_m]
+    · simp only [List.map_cons, colRead_m, readAll_m n cs]
+
+theorem resetAll_m (cs : List Col.{u}) : (resetAll cs).map (·.m) = cs.map (·.m) := by
+  simp [resetAll, List.map_map, Function.comp_def]
+
+/-- the seek `k` is accepted by every column: it is inside the rows, or the readers are lenient -/
+theorem accepts (T : Nat) (L : Bool) (k : Nat) (cs : List Col.{u}) (hall : ∀ c ∈ cs, c.m.total = T ∧ c.Inv)
+    (hfar : ∀ m ∈ cs.map (·.m), Mode L m) (hk : k ≤ T ∨ L = true) :
+    ∀ c ∈ cs, (c.m.step c.s (.seek k)).2 = .ok := by
+  intro c hc
+  obtain ⟨hT, hI⟩ := hall c hc
+  rcases hk with hk | hL
+  · exact c.seek_ok_of_le k hI (by omega)
+  · subst hL
+    exact hfar c.m (List.mem_map.mpr ⟨c, hc, rfl⟩) c.s k hI.1
+
+theorem seekAll_spec (T k : Nat) : ∀ (cs : List Col.{u}), (∀ c ∈ cs, c.m.total = T ∧ c.Inv) →
+    (∀ c ∈ cs, (c.m.step c.s (.seek k)).2 = .ok) →
+    (seekAll cs k).2 = true ∧ ((seekAll cs k).1 = [] ↔ cs = []) ∧ ColsAt T (seekAll cs k).1 (min k T)
+  | [], _, _ => ⟨rfl, by simp [seekAll], by intro c hc; simp [seekAll] at hc⟩
+  | c :: cs, h, hok => by
     obtain ⟨hT, hI⟩ := h c (by simp)
-    obtain ⟨a1, a2, a3, a4⟩ := c.seek_spec k hI (by omega)
-    obtain ⟨b1, _, b3⟩ := seekAll_spec T k hk cs (fun c hc => h c (by simp [hc]))
+    obtain ⟨a1, a2, a3, a4⟩ := c.seek_spec k hI (hok c (by simp))
+    obtain ⟨b1, _, b3⟩ := seekAll_spec T k cs (fun c hc => h c (by simp [hc])) (fun c hc => hok c (by simp [hc]))
     simp only [seekAll, a1]
     refine ⟨b1, by simp, ?_⟩
     intro c' hc'
     simp at hc'
     rcases hc' with rfl | hc'
     · refine ⟨by rw [a2]; exact hT, a3, ?_⟩
-      rw [a4, hT]; congr 1; omega
+      rw [a4, hT]
     · exact b3 c' hc'
+
+/-- the first column refuses: the loop stops there, nothing has moved -/
+theorem seekAll_refused (T k : Nat) (c : Col.{u}) (cs : List Col.{u}) (q : Nat) (hat : ColsAt T (c :: cs) q)
+    (herr : (c.m.step c.s (.seek k)).2 = .err) :
+    (seekAll (c :: cs) k).2 = false ∧ (seekAll (c :: cs) k).1 ≠ [] ∧ ColsAt T (seekAll (c :: cs) k).1 q := by
+  obtain ⟨hT, hI, hN⟩ := hat c (by simp)
+  obtain ⟨a1, a2, a3, a4⟩ := c.seek_refused k hI herr
+  simp only [seekAll, a1]
+  refine ⟨trivial, by simp, ?_⟩
+  intro c' hc'
+  simp at hc'
+  rcases hc' with rfl | hc'
+  · exact ⟨by rw [a2]; exact hT, a3, by rw [a4]; exact hN⟩
+  · exact hat c' (by simp [hc'])
 
 theorem readAll_spec (T n q : Nat) (hq : q ≤ T) : ∀ (cs : List Col.{u}), ColsAt T cs q →
     (∀ c ∈ (readAll n cs).1, c.m.total = T ∧ c.Inv) ∧ ((readAll n cs).1 = [] ↔ cs = []) ∧
@@ -317,8 +419,6 @@ theorem resetAll_spec (T : Nat) (cs : List Col.{u}) (h : ∀ c ∈ cs, c.m.total
   simp only [resetAll, List.mem_map] at hc'
   obtain ⟨c, hc, rfl⟩ := hc'
   obtain ⟨hT, hI⟩ := h c hc
-  obtain ⟨a1, a2, a3, a4⟩ := c.seek_spec 0 hI (Nat.zero_le _)
-  -- `Col.seek` with answer `ok` is exactly the reset column
   have hspec := c.m.step_spec c.s (.seek 0) hI.1
   have hinv := c.m.step_inv c.s (.seek 0) hI.1
   rcases hspec with ⟨ho, k', hp, hsame⟩ | ⟨_, _, hbad⟩
@@ -329,15 +429,24 @@ theorem resetAll_spec (T : Nat) (cs : List Col.{u}) (h : ∀ c ∈ cs, c.m.total
     · congr 1; omega
   · omega
 
-theorem rseek_spec (T : Nat) (s : RSt.{u}) (k : Nat) (hk : k ≤ T) (h : RInv T s) :
-    RInv T (rseek s k).1 ∧ (rseek s k).2 = .ok ∧ rpos (rseek s k).1 = some k := by
-  obtain ⟨hne, hall, hal⟩ := h
+/-- an accepted seek: the exact result -/
+theorem rseek_ok (T : Nat) (L : Bool) (s : RSt.{u}) (k : Nat) (hk : k ≤ T ∨ L = true) (h : RInv T L s) :
+    RInv T L (rseek s k).1 ∧ (rseek s k).2 = .ok ∧ rpos (rseek s k).1 = some k ∧
+    ((k : Int) ≠ s.rowIndex ∨ s.err = true →
+      rseek s k = ({ rowIndex := k, cols := (seekAll s.cols k).1, err := false }, ROut.ok)) := by
+  obtain ⟨hne, hall, hfar, hal⟩ := h
+  have hacc := accepts T L k s.cols hall hfar hk
+  obtain ⟨a1, a2, a3⟩ := seekAll_spec T k s.cols hall hacc
   unfold rseek
   split
-  · obtain ⟨a1, a2, a3⟩ := seekAll_spec T k hk s.cols hall
-    simp only [a1, if_true]
-    refine ⟨⟨?_, fun c hc => ⟨(a3 c hc).1, (a3 c hc).2.1⟩, fun _ => ⟨k, hk, Or.inr rfl, a3⟩⟩, trivial, ?_⟩
+  · simp only [a1, if_true]
+    refine ⟨⟨?_, fun c hc => ⟨(a3 c hc).1, (a3 c hc).2.1⟩, by simpa only [seekAll_m] using hfar,
+      fun _ => ⟨k, ?_, Or.inr rfl, a3⟩⟩, trivial, ?_, fun _ => trivial⟩
     · intro h; exact hne (a2.mp h)
+    · intro hL
+      rcases hk with hk | hk
+      · exact hk
+      · rw [hL] at hk; cases hk
     · simp only [rpos, Bool.false_eq_true, if_false]
       have : ¬ ((k : Int) < 0) := by omega
       simp [this]
@@ -350,76 +459,131 @@ theorem rseek_spec (T : Nat) (s : RSt.{u}) (k : Nat) (hk : k ≤ T) (h : RInv T 
       cases hf : s.err with
       | false => rfl
       | true => exact absurd (Or.inr hf) hc
-    refine ⟨⟨hne, hall, hal⟩, rfl, ?_⟩
+    refine ⟨⟨hne, hall, hfar, hal⟩, rfl, ?_, fun h => absurd h hc⟩
     simp only [rpos, h2, Bool.false_eq_true, if_false]
     have : ¬ s.rowIndex < 0 := by omega
     simp only [this, if_false]
     congr 1; omega
 
-theorem rreadK_spec (T : Nat) (s : RSt.{u}) (n p : Nat) (hall : ∀ c ∈ s.cols, c.m.total = T ∧ c.Inv)
-    (hne : s.cols ≠ []) (herr : s.err = false) (hp : p ≤ T) (hri : s.rowIndex = (p : Int)) (hat : ColsAt T s.cols p) :
-    RInv T (rreadK s n).1 ∧ RSpec T (some p) (.read n) (rpos (rreadK s n).1) (rreadK s n).2 := by
-  obtain ⟨a1, a2, a3⟩ := readAll_spec T n p hp s.cols hat
+/-- a seek beyond the last row of strict readers: refused by the first column, nothing changes -/
+theorem rseek_refused (T : Nat) (s : RSt.{u}) (k : Nat) (hk : T < k) (h : RInv T false s) :
+    RInv T false (rseek s k).1 ∧ (rseek s k).2 = .err ∧ rpos (rseek s k).1 = rpos s := by
+  obtain ⟨hne, hall, hfar, hal⟩ := h
+  cases hcs : s.cols with
+  | nil => exact absurd hcs hne
+  | cons c cs =>
+    obtain ⟨hT, hI⟩ := hall c (by simp [hcs])
+    have herr : (c.m.step c.s (.seek k)).2 = .err :=
+      hfar c.m (by simp [hcs]) c.s k hI.1 (by omega)
+    -- the seek is attempted: `rowIndex ≤ T < k` unless the reader is in the failed state
+    have hatt : (k : Int) ≠ s.rowIndex ∨ s.err = true := by
+      cases he : s.err with
+      | true => exact Or.inr rfl
+      | false =>
+        obtain ⟨p, hp, hri, _⟩ := hal he
+        have := hp rfl
+        refine Or.inl ?_
+        rcases hri with ⟨a, _⟩ | a <;> omega
+    have hfalse : (seekAll s.cols k).2 = false := by
+      obtain ⟨a1, _, _, _⟩ := c.seek_refused k hI herr
+      simp only [hcs, seekAll, a1]
+    have hm : (seekAll s.cols k).1.map (·.m) = s.cols.map (·.m) := seekAll_m s.cols k
+    have hall' : ∀ c' ∈ (seekAll s.cols k).1, c'.m.total = T ∧ c'.Inv := by
+      obtain ⟨a1, a2, a3, _⟩ := c.seek_refused k hI herr
+      intro c' hc'
+      simp only [hcs, seekAll, a1] at hc'
+      simp at hc'
+      rcases hc' with rfl | hc'
+      · exact ⟨by rw [a2]; exact hT, a3⟩
+      · exact hall c' (by simp [hcs, hc'])
+    unfold rseek
+    rw [if_pos hatt]
+    simp only [hfalse, Bool.false_eq_true, if_false]
+    refine ⟨⟨?_, hall', by simpa only [hm] using hfar, ?_⟩, trivial, rfl⟩
+    · simp only [hcs, seekAll]
+      split <;> simp
+    · intro he
+      obtain ⟨p, hp, hri, hat⟩ := hal he
+      refine ⟨p, hp, hri, ?_⟩
+      rw [hcs] at hat
+      have := (seekAll_refused T k c cs (min p T) hat herr).2.2
+      simpa only [hcs] using this
+
+theorem rreadK_spec (T : Nat) (L : Bool) (s : RSt.{u}) (n p : Nat) (hall : ∀ c ∈ s.cols, c.m.total = T ∧ c.Inv)
+    (hfar : ∀ m ∈ s.cols.map (·.m), Mode L m) (hpL : L = false → p ≤ T)
+    (hne : s.cols ≠ []) (herr : s.err = false) (hri : s.rowIndex = (p : Int)) (hat : ColsAt T s.cols (min p T)) :
+    RInv T L (rreadK s n).1 ∧ RSpec T (some p) (.read n) (rpos (rreadK s n).1) (rreadK s n).2 := by
+  obtain ⟨a1, a2, a3⟩ := readAll_spec T n (min p T) (by omega) s.cols hat
+  have hfar' : ∀ m ∈ (readAll n s.cols).1.map (·.m), Mode L m := by simpa only [readAll_m] using hfar
   unfold rreadK
   split
-  · refine ⟨⟨fun h => hne (a2.mp h), a1, fun h => by cases h⟩, Or.inr ⟨rfl, ?_⟩⟩
+  · refine ⟨⟨fun h => hne (a2.mp h), a1, hfar', fun h => by cases h⟩, Or.inr ⟨rfl, ?_⟩⟩
     simp [rpos]
   · rename_i hf
     have hf' : (readAll n s.cols).2.2 = false := by simpa using hf
     obtain ⟨b1, _, b3⟩ := a3 hf'
-    have hcnt := b1 hne
-    refine ⟨⟨fun h => hne (a2.mp h), a1, fun _ => ⟨p + min n (T - p), by omega, Or.inr ?_, b3⟩⟩, Or.inl ⟨?_, ?_⟩⟩
+    have hcnt : (readAll n s.cols).2.1 = min n (T - p) := by rw [b1 hne]; omega
+    have hq : min p T + min n (T - min p T) = min (p + min n (T - p)) T := by omega
+    refine ⟨⟨fun h => hne (a2.mp h), a1, hfar', fun _ => ⟨p + min n (T - p), ?_, Or.inr ?_, ?_⟩⟩, Or.inl ⟨?_, ?_⟩⟩
+    · intro hL
+      have := hpL hL
+      omega
     · simp only [hcnt, hri]; omega
+    · rw [← hq]; exact b3
     · simp only [hcnt, hri]; simp
     · simp only [rpos, herr, Bool.false_eq_true, if_false, hcnt, hri]
       have : ¬ ((p : Int) + ((min n (T - p) : Nat) : Int) < 0) := by omega
       simp only [this, if_false]
       congr 1
 
-/-- an op the partial theorem covers: seeks stay within `0..T` (at the end included) -/
-def opOK (T : Nat) : ROp → Bool
-  | .seek k => decide (k ≤ T)
-  | _ => true
-
-theorem rstep_spec (T : Nat) (s : RSt.{u}) (op : ROp) (hop : opOK T op = true) (h : RInv T s) :
-    RInv T (rstep s op).1 ∧ RSpec T (rpos s) op (rpos (rstep s op).1) (rstep s op).2 := by
+theorem rstep_spec (T : Nat) (L : Bool) (s : RSt.{u}) (op : ROp) (h : RInv T L s) :
+    RInv T L (rstep s op).1 ∧ RSpec T (rpos s) op (rpos (rstep s op).1) (rstep s op).2 := by
   cases op with
   | seek k =>
-    have hk : k ≤ T := by simpa [opOK] using hop
-    obtain ⟨a, b, c⟩ := rseek_spec T s k hk h
-    exact ⟨a, b, c⟩
+    by_cases hk : k ≤ T ∨ L = true
+    · obtain ⟨a, b, c, _⟩ := rseek_ok T L s k hk h
+      exact ⟨a, Or.inl ⟨b, c⟩⟩
+    · have hL : L = false := by
+        cases L with
+        | false => rfl
+        | true => exact absurd (Or.inr rfl) hk
+      subst hL
+      have hk' : T < k := by
+        rcases Nat.lt_or_ge T k with a | a
+        · exact a
+        · exact absurd (Or.inl a) hk
+      obtain ⟨a, b, c⟩ := rseek_refused T s k hk' h
+      exact ⟨a, Or.inr ⟨b, c, hk'⟩⟩
   | reset =>
-    obtain ⟨hne, hall, _⟩ := h
+    obtain ⟨hne, hall, hfar, _⟩ := h
     have hr := resetAll_spec T s.cols hall
     refine ⟨⟨by simp [rstep, resetAll]; exact hne, fun c hc => ⟨(hr c hc).1, (hr c hc).2.1⟩,
-      fun _ => ⟨0, Nat.zero_le _, Or.inr rfl, hr⟩⟩, rfl, by simp [rstep, rpos]⟩
+      by simpa only [rstep, resetAll_m] using hfar,
+      fun _ => ⟨0, fun _ => Nat.zero_le _, Or.inr rfl, by rw [Nat.zero_min]; exact hr⟩⟩, rfl, by simp [rstep, rpos]⟩
   | read n =>
     simp only [rstep]
     cases herr : s.err with
     | true => simp only [if_true]; exact ⟨h, by simp [RSpec, rpos, herr]⟩
     | false =>
       simp only [Bool.false_eq_true, if_false]
-      obtain ⟨hne, hall, hal⟩ := h
-      obtain ⟨p, hp, hri, hat⟩ := hal herr
+      obtain ⟨hne, hall, hfar, hal⟩ := h
+      obtain ⟨p, hpL, hri, hat⟩ := hal herr
       split
       · rename_i hneg
         -- first call: seek to row 0
-        obtain ⟨a, b, c⟩ := rseek_spec T s 0 (Nat.zero_le _) ⟨hne, hall, hal⟩
+        obtain ⟨a, b, c, d⟩ := rseek_ok T L s 0 (Or.inl (Nat.zero_le _)) ⟨hne, hall, hfar, hal⟩
         rw [b]
         simp only []
         have hp0 : rpos s = some 0 := by simp [rpos, herr, hneg]
         rw [hp0]
         -- the seek was not skipped (rowIndex is negative), so the reader now stands on row 0
-        have hsk : (rseek s 0) = ({ rowIndex := 0, cols := (seekAll s.cols 0).1, err := false }, ROut.ok) := by
-          obtain ⟨a1, _, _⟩ := seekAll_spec T 0 (Nat.zero_le _) s.cols hall
-          unfold rseek
-          have : ((0 : Nat) : Int) ≠ s.rowIndex := by omega
-          rw [if_pos (Or.inl this), a1]
-          rfl
-        obtain ⟨a1, a2, a3⟩ := seekAll_spec T 0 (Nat.zero_le _) s.cols hall
+        have hsk := d (Or.inl (by omega))
+        obtain ⟨a1, a2, a3⟩ := seekAll_spec T 0 s.cols hall
+          (accepts T L 0 s.cols hall hfar (Or.inl (Nat.zero_le _)))
         rw [hsk]
-        exact rreadK_spec T _ n 0 (fun c hc => ⟨(a3 c hc).1, (a3 c hc).2.1⟩) (fun h => hne (a2.mp h)) rfl
-          (Nat.zero_le _) rfl a3
+        exact rreadK_spec T L _ n 0 (fun c hc => ⟨(a3 c hc).1, (a3 c hc).2.1⟩)
+          (by simpa only [seekAll_m] using hfar) (fun _ => Nat.zero_le _) (fun h => hne (a2.mp h)) rfl rfl
+          (by simpa using a3)
       · rename_i hneg
         have hri' : s.rowIndex = (p : Int) := by
           rcases hri with ⟨a, _⟩ | a
@@ -429,7 +593,7 @@ theorem rstep_spec (T : Nat) (s : RSt.{u}) (op : ROp) (hop : opOK T op = true) (
           simp only [rpos, herr, Bool.false_eq_true, if_false, hneg]
           congr 1; omega
         rw [hp0]
-        exact rreadK_spec T s n p hall hne herr hp hri' hat
+        exact rreadK_spec T L s n p hall hfar hpL hne herr hri' hat
 
 /-! ### histories -/
 
@@ -441,26 +605,29 @@ inductive RRunOK (T : Nat) : Option Nat → List ROp → List ROut → Prop wher
   | nil (n) : RRunOK T n [] []
   | cons {n op n' out ops os} : RSpec T n op n' out → RRunOK T n' ops os → RRunOK T n (op :: ops) (out :: os)
 
-theorem rrun_refines (T : Nat) : ∀ (ops : List ROp) (s : RSt.{u}), RInv T s → (ops.all (opOK T)) = true →
+theorem rrun_refines (T : Nat) (L : Bool) : ∀ (ops : List ROp) (s : RSt.{u}), RInv T L s →
     RRunOK T (rpos s) ops (routs s ops)
-  | [], _, _, _ => RRunOK.nil _
-  | op :: ops, s, h, hok => by
-    simp only [List.all_cons, Bool.and_eq_true] at hok
-    obtain ⟨a, b⟩ := rstep_spec T s op hok.1 h
-    exact RRunOK.cons b (rrun_refines T ops _ a hok.2)
+  | [], _, _ => RRunOK.nil _
+  | op :: ops, s, h => by
+    obtain ⟨a, b⟩ := rstep_spec T L s op h
+    exact RRunOK.cons b (rrun_refines T L ops _ a)
 
 /-- a fresh row reader over the page readers of its columns -/
 def rinit (ms : List Machine.{u}) : RSt.{u} :=
   { rowIndex := -1, cols := ms.map fun m => { m := m, s := m.init, buf := 0 }, err := false }
 
-theorem rinit_inv (T : Nat) (ms : List Machine.{u}) (hne : ms ≠ []) (hT : ∀ m ∈ ms, m.total = T) :
-    RInv T (rinit ms) := by
+theorem rinit_inv (T : Nat) (L : Bool) (ms : List Machine.{u}) (hne : ms ≠ []) (hT : ∀ m ∈ ms, m.total = T)
+    (hfar : ∀ m ∈ ms, Mode L m) : RInv T L (rinit ms) := by
   have hcols : ∀ c ∈ (rinit ms).cols, c.m.total = T ∧ c.Inv ∧ c.npos = some 0 := by
     intro c hc
     simp only [rinit, List.mem_map] at hc
     obtain ⟨m, hm, rfl⟩ := hc
     exact ⟨hT m hm, ⟨m.init_inv, Or.inl rfl⟩, by simp [Col.npos, m.init_pos]⟩
-  refine ⟨by simp [rinit]; exact hne, fun c hc => ⟨(hcols c hc).1, (hcols c hc).2.1⟩,
-    fun _ => ⟨0, Nat.zero_le _, Or.inl ⟨by simp [rinit], rfl⟩, hcols⟩⟩
+  refine ⟨by simp [rinit]; exact hne, fun c hc => ⟨(hcols c hc).1, (hcols c hc).2.1⟩, ?_,
+    fun _ => ⟨0, fun _ => Nat.zero_le _, Or.inl ⟨by simp [rinit], rfl⟩, by rw [Nat.zero_min]; exact hcols⟩⟩
+  intro m hm
+  simp only [rinit, List.map_map, List.mem_map, Function.comp_def] at hm
+  obtain ⟨m', hm', rfl⟩ := hm
+  exact hfar m' hm'
 
 end PqModel.ReaderSeek
